@@ -210,23 +210,28 @@ func findBit(bytes []byte, startIndex, endIndex, width int, searchBit, noEnd boo
 	bits := len(bytes) * 8
 	end := bits - 1
 
-	// convert to bits and determine negative offsets
-	var startBit, endBit int
-	if startIndex < 0 {
-		startBit = bits + (startIndex * width)
-	} else {
-		startBit = startIndex * width
+	// convert to bits and determine negative offsets (indexes beyond any
+	// possible string are cut back first, their product would wrap around)
+	const maxIndex = int(^uint(0)>>1) / 16
+	toBit := func(index int) int {
+		if index > maxIndex {
+			index = maxIndex
+		} else if index < -maxIndex {
+			index = -maxIndex
+		}
+		if index < 0 {
+			return bits + (index * width)
+		}
+		return index * width
 	}
-	if endIndex < 0 {
-		endBit = bits + (endIndex * width)
-	} else {
-		endBit = endIndex * width
-	}
+	startBit := toBit(startIndex)
+	endBit := toBit(endIndex)
 
 	// enforce boundaries
 	if startBit < 0 {
 		startBit = 0
-	} else if startBit > end {
+	}
+	if startBit > end {
 		return -1
 	}
 	if endBit < startBit {
